@@ -95,7 +95,7 @@ def build(ctx):
         if not pow2:
             units.append(Unit('MPMC.wrap_lemma', 'intwp', S, 'c34_wrap_axioms', expect=[r'assertion\.4'], defines=d, inst=inst, timeout=120))
             continue
-        common = dict(defines=d, inst=inst, timeout=900, unwind=kb + 3, replace=['wrapIndex'], solver=(), extra_checks=[], object_bits=12,
+        common = dict(defines=d, inst=inst, timeout=1800, unwind=kb + 3, replace=['wrapIndex'], solver=(), extra_checks=[], object_bits=12,
                       replay=dict(prog='replay/c34_replay.cpp', args=lambda ce, u: ['6'], no_rlimit=True),
                       assumptions=['loops of the batch push, constructor and destructor are bounded by the constant kBufferSize: unwound completely'])
         for fn in ('Mpmc_emplaceImpl', 'Mpmc_try_pop_ref', 'Mpmc_try_pop_opt', 'Mpmc_try_pop_into'):
